@@ -7,7 +7,7 @@ CI = 'Obj("core.connection_impl.ConnectionImpl")'
 @specpred({'c': CI})
 def inv_conn(c):
     """representation invariant of a connection's object table"""
-    return (1 in c.db and len(c.db[1]) >= 1 and c.db[1][0] is c.display and
+    return (1 in c.db and len(c.db[1]) == 1 and c.db[1][0] is c.display and
             all(len(c.db[i]) >= 1 and
                 all(c.db[i][k].id == i and c.db[i][k].generation == k and c.db[i][k].connection is c and
                     (k == len(c.db[i]) - 1 or not c.db[i][k].alive)
